@@ -550,6 +550,14 @@ async fn submit_future(ch: Channel, param: RequestParam, built: Built) -> Res {
     }
 }
 
+/// One request through the future-style API of any channel (used by the real-socket searches)
+pub async fn do_request(ch: &Channel, unit: u8, timeout: Duration, req: &ReqSpec) -> Res {
+    match build(req) {
+        Ok(b) => submit_future(ch.clone(), RequestParam::new(UnitId::new(unit), timeout), b).await,
+        Err(e) => Res::BadRequest(e),
+    }
+}
+
 fn bit_iter_value(
     r: Result<rodbus::BitIterator, RequestError>,
 ) -> Res {
